@@ -10,7 +10,9 @@ the REAL `IBMQNoiseModel().from_dict(parameters)` / `.apply(circuit)`:
     any insertion order; the key STRINGS are handed to the model, which parses them (`parsePairKey`,
     `parseQubitKey`): "a-b" / "a - b" / " a -b" pair keys in both orientations, registers of 2-4 and
     of 11-13 qubits so that multi-digit numerals ("10-11", "3 - 12") occur; readout values as
-    number / 1-list / pair / longer tuple), the undocumented corners of the code (a value that is
+    number / 1-list / pair / longer tuple; the numbers themselves as python float, python int (0, 1,
+    integer times), numpy float64, and - where they are only passed through - numpy float32 / numpy
+    integers), the undocumented corners of the code (a value that is
     neither number nor dict; t1 and t2 of different types; a t1 key missing in t2 -> KeyError;
     an empty readout tuple -> IndexError) and circuits with 1-, 2- and 3-qubit gates, controlled
     gates, channels already present, single- and multi-qubit measurements;
@@ -63,8 +65,20 @@ def gen_params(rng, n, vt, allow_global_readout, corner, hot_pairs=()):
     the key STRINGS).  hot_pairs: (control, target) tuples of two-qubit gates of the circuit."""
     ctr = itertools.count(1)
 
-    def lam():  # distinct dyadic strengths: a channel identifies the entry it came from
-        return vt.new(next(ctr) / 128)
+    def lam(wide=False):
+        """a strength: mostly distinct dyadic floats (a channel identifies the entry it came from); also the
+        other kinds of number the documentation allows ("int or float"): python ints 0 / 1, numpy float64
+        (a subclass of float); wide=True (values that are only passed through, never type-tested): also
+        numpy float32 and numpy integers."""
+        x = next(ctr) / 128
+        r = rng.random()
+        if r < 0.14:
+            return vt.new(rng.choice([0, 1, 1]))
+        if r < 0.24:
+            return vt.new(np.float64(x))
+        if wide and r < 0.32:
+            return vt.new(rng.choice([np.float32(x), np.int64(1), np.int32(0)]))
+        return vt.new(x)
 
     def qsub(extra=True):
         qs = [q for q in range(n + (1 if extra else 0)) if rng.random() < 0.7] or [0]
@@ -73,7 +87,7 @@ def gen_params(rng, n, vt, allow_global_readout, corner, hot_pairs=()):
 
     S = {}
     r = rng.random()
-    S["dep1"] = ("num", lam()) if r < 0.4 else (("other",) if corner and r > 0.93 else ("dict", [(qkey(rng, q), lam()) for q in qsub()]))
+    S["dep1"] = ("num", lam()) if r < 0.4 else (("other",) if corner and r > 0.93 else ("dict", [(qkey(rng, q), lam(True)) for q in qsub()]))
     r = rng.random()
     if r < 0.4:
         S["dep2"] = ("num", lam())
@@ -96,7 +110,7 @@ def gen_params(rng, n, vt, allow_global_readout, corner, hot_pairs=()):
                 seen.add(k)
                 uniq.append(k)
         rng.shuffle(uniq)
-        items = [(pkey(rng, a, b), lam()) for a, b in uniq[:6]]
+        items = [(pkey(rng, a, b), lam(True)) for a, b in uniq[:6]]
         if corner and rng.random() < 0.2:
             items.append((rng.choice(["3--4", "0-", "a-1", ""]), lam()))  # not a pair of numerals: ValueError
         S["dep2"] = ("dict", items)
@@ -104,6 +118,11 @@ def gen_params(rng, n, vt, allow_global_readout, corner, hot_pairs=()):
 
     def tvals():
         k = next(ctr)
+        r = rng.random()
+        if r < 0.25:  # integer times (e.g. t1 = 100, t2 = 80 microseconds)
+            return vt.new(100 + k), vt.new(80 + k)
+        if r < 0.35:
+            return vt.new(np.float64(1.0 + k / 16)), vt.new(np.float64(0.5 + k / 32))
         return vt.new(1.0 + k / 16), vt.new(0.5 + k / 32)
 
     if r < 0.4:
@@ -123,7 +142,8 @@ def gen_params(rng, n, vt, allow_global_readout, corner, hot_pairs=()):
         if corner and rng.random() < 0.35:
             l2 = [e for e in l2 if e[0] != l1[-1][0]]  # KeyError at the last key of t1
         S["t1"], S["t2"] = ("dict", l1), ("dict", l2)
-    S["gt1"], S["gt2"], S["ep"] = vt.new(0.125), vt.new(0.375), vt.new(rng.choice([0, 0.25]))
+    g1, g2 = rng.choice([(0.125, 0.375), (0.125, 0.375), (1, 2), (np.float64(0.125), 3)])
+    S["gt1"], S["gt2"], S["ep"] = vt.new(g1), vt.new(g2), vt.new(rng.choice([0, 0.25, 1, np.float64(0.5)]))
     r = rng.random()
     if allow_global_readout and r < 0.4:
         S["ro"] = ("num", lam())
@@ -148,22 +168,29 @@ def gen_params(rng, n, vt, allow_global_readout, corner, hot_pairs=()):
     return S
 
 
+def vsrc(x):
+    """source of a number, keeping its type (python int / float, numpy scalar)."""
+    if isinstance(x, np.generic):
+        return f"np.{type(x).__name__}({x.item()!r})"
+    return repr(x)
+
+
 def params_src(S, vt):
     """Python source of the parameters dict."""
 
     def pv(v):
         if v[0] == "num":
-            return repr(vt[v[1]])
+            return vsrc(vt[v[1]])
         if v[0] == "other":
             return "None"
-        return "{" + ", ".join(f"{k!r}: {vt[x]!r}" for k, x in v[1]) + "}"
+        return "{" + ", ".join(f"{k!r}: {vsrc(vt[x])}" for k, x in v[1]) + "}"
 
     pv2 = pv
 
     def rov(v):
         if v[0] == "num":
-            return repr(vt[v[1]])
-        body = ", ".join(repr(vt[x]) for x in v[1])
+            return vsrc(vt[v[1]])
+        body = ", ".join(vsrc(vt[x]) for x in v[1])
         return f"[{body}]" if v[0] == "list" else f"({body}{',' if len(v[1]) == 1 else ''})"
 
     def ro(v):
@@ -172,8 +199,8 @@ def params_src(S, vt):
         return "{" + ", ".join(f"{k!r}: {rov(x)}" for k, x in v[1]) + "}"
 
     return ("{" + f"'depolarizing_one_qubit': {pv(S['dep1'])}, 'depolarizing_two_qubit': {pv2(S['dep2'])}, "
-            f"'t1': {pv(S['t1'])}, 't2': {pv(S['t2'])}, 'gate_times': ({vt[S['gt1']]!r}, {vt[S['gt2']]!r}), "
-            f"'excited_population': {vt[S['ep']]!r}, 'readout_one_qubit': {ro(S['ro'])}" + "}")
+            f"'t1': {pv(S['t1'])}, 't2': {pv(S['t2'])}, 'gate_times': ({vsrc(vt[S['gt1']])}, {vsrc(vt[S['gt2']])}), "
+            f"'excited_population': {vsrc(vt[S['ep']])}, 'readout_one_qubit': {ro(S['ro'])}" + "}")
 
 
 def key_tokens(k):
@@ -362,6 +389,8 @@ def ibmq_model_suite(ctx, nb, C19):
         ctx.case(("ibmq-model", src))
         forms = "/".join(S[k][0] for k in ("dep1", "dep2", "t1", "t2", "ro"))
         ctx.stat("ibmq_model:" + forms)
+        if any(S[k][0] == "num" and isinstance(vt[S[k][1]], int) for k in ("dep1", "dep2", "t1", "t2", "ro")):
+            ctx.stat("ibmq_model:global-number-given-as-int")
         # (1) from_dict: raise / no raise
         params_before = repr(ns["params"])
         raised = None
